@@ -28,7 +28,14 @@ wide = st.one_of(st.just(0.0), st.just(-0.0), mag, mag.map(lambda x: -x),
                      lambda x: 0.0 if abs(x) < 1e-100 else x))   # no subnormal-range values: cost/epsilon would underflow
 
 
+# a failed or rejected simulation is commonly reported as an infinite cost (the penalty value): several solutions may
+# carry it in the same objective
+penalty = st.one_of(grid, grid, st.just(float("inf")), st.just(float("inf")), st.just(float("-inf")))
+
+
 def vec(m, flavour):
+    if flavour == "penalty":
+        return st.lists(penalty, min_size=m, max_size=m)
     if flavour == "grid":
         return st.lists(grid, min_size=m, max_size=m)
     if flavour == "wide":
@@ -39,9 +46,11 @@ def vec(m, flavour):
 @st.composite
 def pair_cases(draw, max_m=8):
     m = draw(st.integers(1, max_m))
-    flavour = draw(st.sampled_from(["grid", "grid", "wide", "mixed"]))
+    flavour = draw(st.sampled_from(["grid", "grid", "wide", "mixed"] + (["penalty"] if max_m == 8 else [])))
     p = draw(vec(m, flavour))
     mode = draw(st.sampled_from(["independent", "derived", "derived", "identical"]))
+    if flavour == "penalty" and mode == "derived":
+        mode = "independent"
     if mode == "independent":
         q = draw(vec(m, flavour))
     elif mode == "identical":
